@@ -19,6 +19,15 @@ CLAIMED = {
  "C09": ("model_checking", "bounded symbolic execution with engine-level panic / allocation-budget / instruction-budget obligations; symbolic allocation sizes decided by satisfiability queries",
          "For N arbitrary symbolic bytes per loader and for structured inputs whose every length, count, offset and size field is an unconstrained symbolic word, no path lets a panic escape, exceeds 16N+128KiB allocated bytes, or exceeds 4000N+200000 SSA instructions; an over-budget allocation is found as the model of a single query (all 2^32 values of a length field at once).",
          "Trusted: executor's allocation accounting (sizes from go/types for gc/amd64, append growth approximated), z3, zlib stub (its output excluded). SSA instruction count is the proxy for time.", "DESIGN.md 5 C09"),
+ "C17": ("model_checking", "bounded symbolic execution of ProfileReader.ReadProfile / Profile.Description over all tag placements and mluc string placements with symbolic content",
+         "Every tag entry equals in[offset:offset+size] for every placement of k<=2 tags in an 8-byte data area (k=0 included); the description equals the ASCII bytes of a textDescription, or the UTF-16BE decoding at an 'en' record's declared offset (else some record's) for every placement of <=2 records' strings.",
+         "Trusted: executor, z3, real unicode/utf16.Decode executed symbolically on both sides, map iteration modelled as insertion and reverse order. Bounds on counts and string length as stated in evidence.", "DESIGN.md 5 C17"),
+ "C18": ("model_checking", "bounded symbolic execution with a counting source; consumption bound asserted on every path",
+         "For skeleton files of every family followed by up to 70000 (thorough 300000) bytes of pixel data the number of bytes the loader pulled from the source is <= needed+64KiB on every path, and the file truncated at `needed` loads to identical metadata.",
+         "Trusted: executor, z3; `needed` is computed in the harness from the container layout. 64 MiB payloads are outside the bound; the argument is that the count of requested bytes does not depend on what follows.", "DESIGN.md 5 C18"),
+ "C19": ("model_checking", "differential bounded symbolic execution: three specific loaders and autometa.Load on the same symbolic input in one path",
+         "auto's metadata/ICC/err-ness equals the first succeeding specific loader's, error without metadata when none succeeds, stream replays the input; over 12 arbitrary bytes, all skeleton families at every truncation, and 9 polyglots.",
+         "Trusted: executor, z3, deterministic zlib stub. The oracle is the specific loaders themselves (differential), as the property states.", "DESIGN.md 5 C19"),
  "C16": ("model_checking", "bounded symbolic execution of icc.ProfileReader (go/ssa -> SMT-LIB2 bit-vectors, z3)",
          "All 2^1024 headers carrying 'acsp' are covered by one symbolic 128-byte header; each Header field is a bit-vector identity against ICC.1:2010 Table 17 offsets; a header with any other signature is shown to be rejected.",
          "Trusted: executor, z3, stubs for fmt.Sprintf (format+argument terms compared) and time.Date (argument terms compared). Tag table is a fixed minimal one.", "DESIGN.md 5 C16"),
